@@ -106,6 +106,31 @@ def check_resolve(case, ctx: Ctx):
             ctx.rec.label("same-name-across-stages")
         for g, group in enumerate(case["groups"]):
             _check_group(case, g, group, graph, inst, ctx)
+        # "the contents of the referenced file": the files behind :output references are rewritten (a repeating or
+        # restarted producer) and the same component objects resolve their arguments again
+        if any(r["method"] == "output" for group in case["groups"] for r in group["refs"]):
+            case2 = dict(case, contents={rel: "second " + text for rel, text in case["contents"].items()})
+            for rel, text in case2["contents"].items():
+                with open(os.path.join(inst, rel), "wb") as f:
+                    f.write(text.encode("utf-8"))
+            for g, group in enumerate(case["groups"]):
+                want = M.expected(case2, group, inst)
+                for k, order in enumerate(group["orders"]):
+                    spec = graph.nodes["stage%d.%s" % (cstage, G.consumer_name(g, k))]["componentSpecification"]
+                    try:
+                        got = spec.resolveArguments()
+                    except Exception as e:
+                        raise Violation("resolve-arguments-raises-" + type(e).__name__,
+                                        "second resolution of %r: %s: %s" % (G.arguments(case, group), type(e).__name__,
+                                                                             str(e)[:300].replace(inst, "$I")))
+                    if got != want:
+                        first = M.expected(case, group, inst)
+                        raise Violation("stale-value-after-referenced-file-changed" if got == first else
+                                        "second-resolution-differs-from-expected",
+                                        "arguments %r: after the referenced files were rewritten the arguments resolve "
+                                        "to %r, expected %r" % (G.arguments(case, group), got.replace(inst, "$I"),
+                                                                want.replace(inst, "$I")))
+            ctx.rec.label("resolved-again-after-rewrite")
     finally:
         shutil.rmtree(loc, ignore_errors=True)
 
